@@ -28,7 +28,10 @@ ID = "C09"
 RULE = (
     "Hypothesis draws a TimeManager parameter set that satisfies every documented constructor constraint by "
     "construction (schedule of 2..6 strictly increasing non-negative times with arbitrary start; integer, "
-    "binary-fraction, decimal-fraction and arbitrary-float number families, optionally scaled by 3600 or 1e-3; "
+    "binary-fraction, decimal-fraction and arbitrary-float number families, optionally scaled by 3600 or 1e-3, "
+    "the whole history (schedule, dt_init, dt bounds) multiplied by a time unit in {1e-12, 1e-9, 1e-6, 1e-3, 1, "
+    "1e3, 1e6, 1e9}, start times up to 1e6 gaps away from 0; all oracle tolerances are relative to the final time "
+    "or are the manager's own np.isclose(rtol=1e-10, atol=1e-16); "
     "dt_init <= first scheduled interval, equality included; dt_min <= dt_init <= dt_max with "
     "dt_min*over < dt_max and dt_max*under > dt_min, or dt_min_max=None where admissible; 0 <= lo <= hi <= "
     "iter_max; under < 1 < over; recomp_factor < 1; recomp_max >= 1) and an event list of length <= 60 "
@@ -53,8 +56,8 @@ LEVEL_TEXT = ("Exploration: tens of thousands of generated (parameter set, conve
               "(integer / binary-fraction arithmetic), near landings (decimal fractions), scheduled intervals "
               "shorter than dt_min, failures on steps that target a scheduled time and budget-exhausting failure "
               "bursts are forced by the generator and their frequencies are reported.")
-LEVEL_NOTE = ("Schedules of at most 6 points, at most 60 explicit events, dt_min >= 1e4 times the manager's "
-              "float tolerance at the final time, default rtol/atol, constant_dt=False only. The size of dt "
+LEVEL_NOTE = ("Schedules of at most 6 points, at most 60 explicit events, dt_min >= 50 times the manager's "
+              "float tolerance at the final time, time units 1e-12..1e9, default rtol/atol, constant_dt=False only. The size of dt "
               "after adaptation (which relaxation factor is applied when) is not part of the property and is "
               "not checked. Finds violations, does not prove absence.")
 DESIGN_REF = "DESIGN.md section 4, C09"
@@ -62,7 +65,8 @@ ASSUMPTIONS = [
     "constructor arguments satisfy all documented constraints (strict versions of the dt_min_max / relaxation "
     "factor inequalities), relaxation and recomputation factors are positive",
     "dt_init <= schedule[1] - schedule[0] (the property's precondition; the manager never clamps the initial step)",
-    "dt_min is at least 1e4 times rtol*final_time + atol, so that tolerance-equality of times is unambiguous",
+    "dt_min is at least 50 times rtol*final_time + atol (default rtol=1e-10, atol=1e-16, also for time units down "
+    "to 1e-12 and start times 1e6 gaps from 0), so that tolerance-equality of times is unambiguous",
     "reported iteration counts lie in 1..iter_max",
     "the manager is driven only through increase_time / increase_time_index / compute_time_step / "
     "final_time_reached, in the order used by run_time_dependent_model",
@@ -79,6 +83,9 @@ REQUIRED = {
     "default-dt-bounds": 0.02,
     "start>0": 0.2,
     "landing-exact-unclamped": 0.03,
+    "time-scaled-small": 0.15,
+    "time-scaled-large": 0.1,
+    "time-offset": 0.08,
 }
 
 RTOL, ATOL = 1e-10, 1e-16  # defaults of pp.TimeManager (not overridden by the generator)
@@ -100,7 +107,11 @@ def _spec(draw, tier):
     else:
         u = draw(st.floats(0.05, 20.0, allow_nan=False, allow_infinity=False))
         scale = draw(st.sampled_from([1, 1, 3600, 0.001]))
-    u = u * scale  # dt_init
+    # time-unit class: the whole history (schedule, dt_init, dt bounds all derive from u) on another scale
+    unit = draw(st.sampled_from([1, 1, 1, 1, 1, 1e-12, 1e-9, 1e-6, 1e-3, 1000, 10**6, 10**9]))
+    u = u * scale * unit  # dt_init
+    while u < 1e-12:  # keep dt_min (>= 0.01 u) at least 50 times the manager's absolute tolerance 1e-16
+        u = u * 10
 
     npts = draw(st.sampled_from([2, 3, 3, 4, 4, 5, 6]))
     lattice = fam != "float" and draw(st.integers(0, 3)) > 0
@@ -116,9 +127,11 @@ def _spec(draw, tier):
             else:
                 m = draw(st.floats(lo_m, 8.0, allow_nan=False, allow_infinity=False))
         mults.append(m)
-    start_kind = draw(st.sampled_from(["zero", "zero", "lattice", "lattice", "float"]))
+    start_kind = draw(st.sampled_from(["zero", "zero", "lattice", "lattice", "float", "far"]))
     if start_kind == "zero":
         start = 0
+    elif start_kind == "far":
+        start = draw(st.sampled_from([10**6, 10**5, 3 * 10**5])) * u  # t0 far from 0 relative to the gaps
     elif start_kind == "lattice" or fam == "int":
         start = draw(st.sampled_from([1, 3, 4, 10, 100])) * u
     else:
@@ -126,7 +139,7 @@ def _spec(draw, tier):
     sched = [start]
     for m in mults:
         sched.append(sched[-1] + m * u)
-    # strictly increasing by construction (m*u >= 0.05*u and start <= 100*u: no absorption in float64)
+    # strictly increasing by construction (m*u >= 0.05*u and start <= 1e6*u: no absorption in float64)
     t_final = sched[-1]
 
     under = draw(st.sampled_from([0.5, 0.25, 0.7, 0.9, 0.4, None]))
@@ -177,7 +190,7 @@ def _spec(draw, tier):
         "schedule": sched, "dt_init": u, "dt_min_max": dt_min_max, "iter_max": iter_max,
         "iter_optimal_range": [lo, hi], "iter_relax_factors": [under, over],
         "recomp_factor": recomp_factor, "recomp_max": recomp_max, "events": events, "tail_iters": tail,
-        "family": fam,
+        "family": fam, "unit": unit,
     }
 
 
@@ -283,6 +296,12 @@ def check(spec):
         labels.append("default-dt-bounds")
     if t0 > 0:
         labels.append("start>0")
+    if spec.get("unit", 1) <= 1e-3:
+        labels.append("time-scaled-small")
+    elif spec.get("unit", 1) >= 1e3:
+        labels.append("time-scaled-large")
+    if t0 >= 1e5 * spec["dt_init"]:
+        labels.append("time-offset")
     if any(b - a < dt_min for a, b in zip(sched, sched[1:])):
         labels.append("interval<dt_min")
     if spec["dt_init"] == sched[1] - sched[0]:
